@@ -42,6 +42,14 @@ def unseeded_cells(quick):
     for i in idxs:
       for variant in (0, 1, 2):
         cells.append({'family': 'unseeded', 'psize': psize, 'index': i, 'variant': variant})
+  # listed outputs with leading zero bits (the shortest two of every size), top-bit variants
+  for psize, vals in sorted(unseeded_rands.size_unseeded_map.items()):
+    if quick and psize > 2048:
+      continue
+    order = sorted(range(len(vals)), key=lambda i_: (sorted(vals)[i_].bit_length(), i_))[:2]
+    for i in order:
+      for variant in (1, 2):
+        cells.append({'family': 'unseeded', 'psize': psize, 'index': i, 'variant': variant, 'short': 1})
   # ground truth that does not come from the shipped table: the first ten outputs of GMP's Mersenne Twister in its default state
   # (gmpy2.random_state()), which the table lists for every size
   for psize in sorted(unseeded_rands.size_unseeded_map):
@@ -69,7 +77,7 @@ def build(cell, inst):
       return None
     return weak.highlow_key(rng, aid, cell['bits'], cell['r'], cell['s'])
   if f == 'upperdiff':
-    return weak.upperdiff_key(rng, aid, cell['L'], cell['dindex'], cell.get('odd', 0))
+    return weak.upperdiff_key(rng, aid, cell['L'], cell['dindex'], cell.get('odd', 0), cell.get('qlong', 0))
   if f == 'unseeded':
     from paranoid_crypto.lib.data import unseeded_rands
     if cell.get('source') == 'gmpmt':
